@@ -112,7 +112,7 @@ def streams(ctx):
                             "check": (lambda out, e=e, l=l: None if (gen_cache.canon(out) == gen_cache.canon(e) if l.startswith("ml.dump") else out == canon_msgs(e)) else ("model", canon_msgs(e)))})
             # the property: last publication per uri before the yardstick == the yardstick's publication
             last = {}
-            stale_risk, skipped_risk = False, False
+            stale_risk, skipped_risk = {}, {}
             names_by_uri = {}
             parked_now = set()
             live_tasks = {}      # uri -> number of unfinished tasks (approximation: parked names attributed at edit time)
@@ -130,7 +130,7 @@ def streams(ctx):
                         if part.startswith("parked="):
                             parked_now = set(x for x in part[8:-1].split(",") if x)
                     if live_tasks.get(uri):
-                        stale_risk = True            # an edit while an earlier task of this document is unfinished
+                        stale_risk[uri] = True       # an edit while an earlier task of this document is unfinished
                     names_needed = set()
                     # a package needed by this revision was already being fetched for someone else
                     pk = impl[i - 1]
@@ -138,7 +138,7 @@ def streams(ctx):
                         names_needed.add("npm/" + it.split("|")[0])
                     names_by_uri.setdefault(uri, set()).update(names_needed)
                     if names_needed & before:
-                        skipped_risk = True
+                        skipped_risk[uri] = True     # a package this revision needs is being fetched by another task: its own claim is refused
                     live_tasks[uri] = len(parked_now - before)
                 elif f[0] in ("l.reply", "l.settle"):
                     for part in o.split(" ; "):
@@ -158,7 +158,8 @@ def streams(ctx):
                     if last.get(hu) != want[0]:
                         why = (f"document {f[1]}: last published {last.get(hu)} but its latest text against the final cache gives {want[0]}")
                         shared = any(names_by_uri.get(f[1], set()) & ns for u, ns in names_by_uri.items() if u != f[1])
-                        kid = "F-C13-1" if stale_risk else ("F-C13-2" if (skipped_risk or shared) else None)
+                        # F-C13-2 (open): this document needed a package another task was fetching; F-C13-1 (fixed): stale snapshot
+                        kid = "F-C13-2" if (skipped_risk.get(f[1]) or shared) else ("F-C13-1" if stale_risk.get(f[1]) else None)
                         der.append({"req": vlib.line("ml.settle"), "index": a, "history": [c["req"] for c in cs[a:b]],
                                     "check": (lambda out, kid=kid, why=why: ("known", kid) if kid else ("violation", why))})
         return der
